@@ -449,3 +449,35 @@ fn k_value_bool() {
         None => assert!(to_bool(value) == Err(Error::IllegalParameterValue)),
     }
 }
+
+// ---------------------------------------------------------------------------
+// k_value_bounds_narrow (C03) -- concrete literals at and just beyond the bounds of the
+// signed and unsigned types, in decimal and hexadecimal notation.
+// ---------------------------------------------------------------------------
+#[kani::proof]
+#[kani::unwind(24)]
+fn k_value_bounds_narrow() {
+    let r: Result<i8, Error> = (&Value::Decimal("-128")).try_into();   assert!(r == Ok(i8::MIN));
+    let r: Result<i8, Error> = (&Value::Decimal("-129")).try_into();   assert!(r == Err(Error::NumericDataError));
+    let r: Result<i8, Error> = (&Value::Decimal("127")).try_into();    assert!(r == Ok(i8::MAX));
+    let r: Result<i8, Error> = (&Value::Decimal("128")).try_into();    assert!(r == Err(Error::NumericDataError));
+    let r: Result<i8, Error> = (&Value::Hexadecimal("80")).try_into(); assert!(r == Err(Error::NumericDataError));
+    let r: Result<u8, Error> = (&Value::Decimal("255")).try_into();    assert!(r == Ok(u8::MAX));
+    let r: Result<u8, Error> = (&Value::Decimal("256")).try_into();    assert!(r == Err(Error::NumericDataError));
+    let r: Result<u8, Error> = (&Value::Decimal("-0")).try_into();     assert!(r == Err(Error::NumericDataError));
+    let r: Result<i16, Error> = (&Value::Decimal("-32768")).try_into(); assert!(r == Ok(i16::MIN));
+    let r: Result<i16, Error> = (&Value::Decimal("-32769")).try_into(); assert!(r == Err(Error::NumericDataError));
+    let r: Result<i16, Error> = (&Value::Decimal("32768")).try_into();  assert!(r == Err(Error::NumericDataError));
+    let r: Result<u16, Error> = (&Value::Hexadecimal("FFFF")).try_into(); assert!(r == Ok(u16::MAX));
+    let r: Result<u16, Error> = (&Value::Hexadecimal("10000")).try_into(); assert!(r == Err(Error::NumericDataError));
+}
+#[kani::proof]
+#[kani::unwind(24)]
+fn k_value_bounds_wide() {
+    let r: Result<i32, Error> = (&Value::Decimal("-2147483648")).try_into(); assert!(r == Ok(i32::MIN));
+    let r: Result<i32, Error> = (&Value::Decimal("2147483648")).try_into();  assert!(r == Err(Error::NumericDataError));
+    let r: Result<i64, Error> = (&Value::Decimal("-9223372036854775808")).try_into(); assert!(r == Ok(i64::MIN));
+    let r: Result<i64, Error> = (&Value::Decimal("9223372036854775808")).try_into();  assert!(r == Err(Error::NumericDataError));
+    let r: Result<u64, Error> = (&Value::Decimal("18446744073709551615")).try_into(); assert!(r == Ok(u64::MAX));
+    let r: Result<u64, Error> = (&Value::Decimal("18446744073709551616")).try_into(); assert!(r == Err(Error::NumericDataError));
+}
